@@ -1439,4 +1439,170 @@ theorem coordPos_multiPolygon_eq_locate_of (ps : List Poly) (p : Pt)
     rw [if_neg hb, if_pos hi, if_pos hi]
   · rw [if_neg hi, if_neg hi]
 
+/-! ### 4. folds, bounding-box rejection and symmetry of `intersectsM` -/
+
+/-- a point of a segment of `cs` is inside the bounding box of `cs` -/
+theorem segMem_in_bbox {cs : List Pt} {mn mx a b p : Pt} (hb : getBoundingRect cs = some (mn, mx))
+    (hm : (a, b) ∈ segs cs) (hp : SegMem p a b) : rectCoord mn mx p = true := by
+  apply onAnySeg_in_bbox hb
+  rw [onAnySeg_iff]
+  exact ⟨(a, b), hm, (lineCoord_iff a b p).mpr hp⟩
+
+/-- **bounding-box rejection is sound for the segment kernel**: if the bounding boxes of two
+coordinate lists do not intersect, no segment of one meets a segment of the other. -/
+theorem disjoint_bbox_segs {cs ds : List Pt} {amn amx bmn bmx : Pt}
+    (ha : getBoundingRect cs = some (amn, amx)) (hb : getBoundingRect ds = some (bmn, bmx))
+    (hd : rectRect amn amx bmn bmx = false) :
+    ∀ s ∈ segs cs, ∀ t ∈ segs ds, lineLine s.1 s.2 t.1 t.2 = false := by
+  intro s hs t ht
+  by_contra hne
+  have hl : lineLine s.1 s.2 t.1 t.2 = true := by simpa using hne
+  rw [lineLine_iff] at hl
+  obtain ⟨p, h1, h2⟩ := hl
+  have r1 := segMem_in_bbox ha (by simpa using hs) h1
+  have r2 := segMem_in_bbox hb (by simpa using ht) h2
+  rw [rectCoord_iff] at r1 r2
+  have : rectRect amn amx bmn bmx = true := by
+    rw [rectRect_eq]
+    refine ⟨?_, ?_, ?_, ?_⟩ <;> linarith [r1.1, r1.2.1, r1.2.2.1, r1.2.2.2, r2.1, r2.2.1, r2.2.2.1, r2.2.2.2]
+  rw [this] at hd; cases hd
+
+/-- `has_disjoint_bboxes(LineString, LineString)` is sound for the segment kernel. -/
+theorem disjointBB_lineString_sound (cs ds : List Pt)
+    (h : disjointBB (.lineString cs) (.lineString ds) = true) :
+    ∀ s ∈ segs cs, ∀ t ∈ segs ds, lineLine s.1 s.2 t.1 t.2 = false := by
+  unfold disjointBB at h
+  simp only [boundingRect] at h
+  cases ha : getBoundingRect cs with
+  | none => rw [ha] at h; cases h
+  | some A =>
+    cases hb : getBoundingRect ds with
+    | none => rw [ha, hb] at h; cases h
+    | some B =>
+      obtain ⟨amn, amx⟩ := A
+      obtain ⟨bmn, bmx⟩ := B
+      rw [ha, hb] at h
+      exact disjoint_bbox_segs ha hb (by simpa using h)
+
+/-- a point of the segment `ab` is inside `Rect::new(a, b)` -/
+theorem segMem_in_rectNew {a b p : Pt} (hp : SegMem p a b) :
+    rectCoord (rectNewPts a b).1 (rectNewPts a b).2 p = true := by
+  have hr := hp.inRect
+  rw [pointInRect_iff] at hr
+  obtain ⟨hx, hy⟩ := hr
+  rw [rectCoord_iff]
+  simp only [rectNewPts, SM.rectNew]
+  by_cases h1 : a.x < b.x <;> by_cases h2 : a.y < b.y <;> simp only [h1, h2, if_true, if_false] <;>
+    (refine ⟨?_, ?_, ?_, ?_⟩ <;> first
+      | (rcases hx with h | h <;> linarith [h.1, h.2])
+      | (rcases hy with h | h <;> linarith [h.1, h.2]))
+
+/-- `LineString: Intersects<Line>`: the bounding-box early return loses nothing. -/
+theorem lsLine_eq (cs : List Pt) (a b : Pt) :
+    lsLine cs a b = (segs cs).any (fun s => lineLine s.1 s.2 a b) := by
+  unfold lsLine
+  by_cases hd : disjointBB (.lineString cs) (.line a b) = true
+  · rw [if_pos hd]
+    symm
+    rw [List.any_eq_false]
+    intro s hs hl
+    rw [lineLine_iff] at hl
+    obtain ⟨p, h1, h2⟩ := hl
+    unfold disjointBB at hd
+    simp only [boundingRect] at hd
+    cases ha : getBoundingRect cs with
+    | none => rw [ha] at hd; cases hd
+    | some A =>
+      obtain ⟨amn, amx⟩ := A
+      rw [ha] at hd
+      have r1 := segMem_in_bbox ha (by simpa using hs) h1
+      have r2 := segMem_in_rectNew h2
+      rw [rectCoord_iff] at r1 r2
+      have : rectRect amn amx (rectNewPts a b).1 (rectNewPts a b).2 = true := by
+        rw [rectRect_eq]
+        refine ⟨?_, ?_, ?_, ?_⟩ <;>
+          linarith [r1.1, r1.2.1, r1.2.2.1, r1.2.2.2, r2.1, r2.2.1, r2.2.2.1, r2.2.2.2]
+      simp [this] at hd
+  · rw [if_neg hd]
+
+/-! #### folds -/
+
+theorem intersectsM_point (c : Pt) (b : Geom) : intersectsM (.point c) b = vsPiece b (.point c) := by
+  rw [intersectsM]
+
+/-- `MultiPoint: Intersects<G>` is `any` over the points. -/
+theorem intersectsM_multiPoint (cs : List Pt) (b : Geom) :
+    intersectsM (.multiPoint cs) b = cs.any (fun c => intersectsM (.point c) b) := by
+  rw [intersectsM]
+  congr 1
+
+theorem intersectsAny_eq (gs : List Geom) (b : Geom) :
+    intersectsAny gs b = gs.any (fun g => intersectsM g b) := by
+  induction gs with
+  | nil => rw [intersectsAny]; rfl
+  | cons g t ih => rw [intersectsAny, ih]; rfl
+
+/-- `GeometryCollection: Intersects<G>` is the bounding-box test followed by `any` over members. -/
+theorem intersectsM_collection (gs : List Geom) (b : Geom) :
+    intersectsM (.collection gs) b =
+      (!disjointBB (.collection gs) b && gs.any (fun g => intersectsM g b)) := by
+  rw [intersectsM, intersectsAny_eq]
+  cases disjointBB (.collection gs) b <;> simp
+
+/-- `MultiPolygon: Intersects<G>`: bounding-box test, then `any` over the member polygons. -/
+theorem intersectsM_multiPolygon (ps : List Poly) (b : Geom) :
+    intersectsM (.multiPolygon ps) b =
+      (!disjointBB (.multiPolygon ps) b && ps.any (fun p => intersectsM (.polygon p) b)) := by
+  rw [intersectsM]
+  have : (fun p => vsPiece b (.polygon p)) = fun p => intersectsM (.polygon p) b := by
+    funext p; rw [intersectsM]
+  rw [this]
+  cases disjointBB (.multiPolygon ps) b <;> simp
+
+/-- `LineString: Intersects<G>`: bounding-box test, then `any` over the segments. -/
+theorem intersectsM_lineString (cs : List Pt) (b : Geom) :
+    intersectsM (.lineString cs) b =
+      (!disjointBB (.lineString cs) b && (segs cs).any (fun s => intersectsM (.line s.1 s.2) b)) := by
+  rw [intersectsM]
+  have : (fun s : Pt × Pt => vsPiece b (.line s.1 s.2)) = fun s => intersectsM (.line s.1 s.2) b := by
+    funext s; rw [intersectsM]
+  rw [this]
+  cases disjointBB (.lineString cs) b <;> simp
+
+/-! #### symmetry -/
+
+/-- the primitive operand types of the symmetric kernel impls -/
+def prim : Geom → Bool
+  | .point _ | .line _ _ | .rect _ _ | .triangle _ _ _ | .polygon _ => true
+  | _ => false
+
+/-- pairs of primitives whose two dispatch orders reach the same kernel term (all except
+Triangle × Triangle and Polygon × Polygon, which go through the asymmetric `polyPoly`) -/
+def kernelPair : Geom → Geom → Bool
+  | .triangle _ _ _, .triangle _ _ _ => false
+  | .polygon _, .polygon _ => false
+  | a, b => prim a && prim b
+
+/-- `intersects` is symmetric on every primitive pair (Point, Line, Rect, Triangle, Polygon), except
+the two pairs that run the asymmetric `Polygon × Polygon` body. -/
+theorem intersectsM_symm_kernel (a b : Geom) (h : kernelPair a b = true) :
+    intersectsM a b = intersectsM b a := by
+  cases a <;> cases b <;> simp only [kernelPair, prim, Bool.and_true, Bool.and_false, Bool.false_eq_true] at h <;>
+    simp only [intersectsM, vsPiece, isxFlat, coordX, lineX, rectX, triX, polyX]
+  · exact beq_pt_comm _ _
+  · exact lineLine_symm _ _ _ _
+  · rename_i amn amx bmn bmx
+    unfold rectRect
+    by_cases h1 : bmx.x < amn.x <;> by_cases h2 : bmx.y < amn.y <;> by_cases h3 : bmn.x > amx.x <;>
+      by_cases h4 : bmn.y > amx.y <;> simp [h1, h2, h3, h4]
+
+/-- `MultiPoint × primitive` is symmetric. -/
+theorem intersectsM_symm_multiPoint (cs : List Pt) (b : Geom) (h : prim b = true) :
+    intersectsM (.multiPoint cs) b = intersectsM b (.multiPoint cs) := by
+  cases b <;> simp only [prim, Bool.false_eq_true] at h <;>
+    simp only [intersectsM, vsPiece, isxFlat, coordX, lineX, rectX, triX, polyX]
+  congr 1
+  funext c
+  exact beq_pt_comm _ _
+
 end Geo.Proofs.Loc
